@@ -106,6 +106,9 @@ EFFECTS = [
     dict(file="FnKeepalive", src="client.py", qual="Client._send_pingreq", name="sendPingreq", params=[], ret="Int",
          attrs=[], clock="now", ignore=["_easy_log"],
          calls={"_send_simple_command": dict(clobbers="*", args=1, returns=True)}),
+    # (an entry of the `_in_packet` dictionary is an attribute named `_in_packet.<key>`)
+    dict(file="FnKeepalive", src="client.py", qual="Client._handle_pingresp", name="handlePingresp", params=[], ret="Int",
+         attrs=[("_in_packet.remaining_length", "Int")], clock="now", ignore=["_easy_log"], calls={}),
     # (args="opaque": the arguments are objects the translated function does not look at)
     dict(file="FnLoopRc", src="client.py", qual="Client.disconnect", name="disconnect", params=[], ret="Int",
          attrs=[("_sock", "Ref")], clock="now",
@@ -726,6 +729,11 @@ class EffTr(Tr):
             if ta != "Ref" or tb != "Ref":
                 raise Missing(f"`is` between {ta} and {tb}")
             return (f"({a} == {b})" if isinstance(e.ops[0], ast.Is) else f"({a} != {b})"), "Bool"
+        if isinstance(e, ast.Subscript) and self.is_self_attr(e.value) and isinstance(e.slice, ast.Constant) and isinstance(e.slice.value, str) \
+                and f"self.{e.value.attr}.{e.slice.value}" in self.types:
+            if e.value.attr in self.clobbered or "*" in self.clobbered or self.epoch:
+                raise Missing(f"self.{e.value.attr}[...] read after a call that may change it")
+            return f"self_{e.value.attr.lstrip('_')}_{e.slice.value}", self.types[f"self.{e.value.attr}.{e.slice.value}"]
         if self.is_self_attr(e) and ("self." + e.attr) in self.types:
             if e.attr in self.clobbered or "*" in self.clobbered:
                 raise Missing(f"self.{e.attr} read after a call or assignment that may change it")
@@ -903,7 +911,7 @@ class EffTr(Tr):
     def translate_effects(self):
         cfg, fn = self.cfg, self.fn
         body = self.stmts(fn.body, 1, None)
-        ps = [f"(self_{a.lstrip('_')} : {t})" for a, t in cfg["attrs"]] + [f"(self_{v} : Bool)" for v in cfg.get("none_tests", {}).values()] \
+        ps = [f"(self_{a.lstrip('_').replace('.', '_')} : {t})" for a, t in cfg["attrs"]] + [f"(self_{v} : Bool)" for v in cfg.get("none_tests", {}).values()] \
             + [f"({cfg['clock']} : Int)"] + [f"({c['raises']} : Bool)" for c in cfg["calls"].values() if c.get("raises")] \
             + [f"({lname(n)} : {t})" for n, t in cfg["params"]] + [f"({n} : {t})" for n, t in self.extra]
         where = f"{cfg['src']} {cfg['qual']} (line {fn.lineno})"
